@@ -130,6 +130,11 @@ def run(ctx):
         w = rng.choice([1, 2, 3, 5, 9, 17, rng.randint(1, 40)])
         h = rng.choice([1, 2, 3, 5, rng.randint(1, 40 if ctx.tier == 'thorough' else 16)])
         mode = rng.choice(['rand', 'rand', 'white', 'black', 'border', 'singles'])
+        if i % 130 == 7:
+            # a tall, narrow image (more rows than any strip / tile size an implementation might process at a time)
+            w, h, mode = rng.choice([1, 2, 3]), rng.choice([1025, 1100, 2049]), rng.choice(['rand', 'border'])
+        elif i % 130 == 71:
+            w, h, mode = rng.choice([1025, 1300]), rng.choice([1, 2]), rng.choice(['rand', 'border'])
         img = gen_img(rng, w, h, mode)
         pmode = rng.choice(['1', '1', 'L', 'RGB', 'P_wb', 'P_bw', 'P_rbw', 'RGBA'])
         prior = gen_img(rng, rng.randint(1, 6), rng.randint(1, 6), 'rand') if rng.random() < 0.15 else None
